@@ -3,8 +3,9 @@ import PsModel.Model.C17
 import PsModel.Spec.C17
 /-! line-protocol front end of the C17 model
 
-    C17 (imp <allowAll> <relPath|-> (files (path id (attr…))…) (host (name id (attr…))…) <execDepth> <stmt>)
-        stmt = (import (name as|-)…) | (from <module|-> <relative 0/1> (name as|-)…)
+    C17 (imp <allowAll> <relPath|-> <ctxName> (files (path id (attr…))…) (host (name id (attr…))…) (w <wrapper>…) <stmt>)
+        stmt = (import (name as|-)…) | (from <module|-> <level> (name as|-)…)
+        wrapper = exec | func | cls | try | evalexec   (outermost first)
       → (binds (key m|a mod [attr])…) err
     C17 (name <x> <user> <hostBuiltin> <func>)  → user|astFactory|host|pyscriptFunc|evalName
 -/
@@ -38,14 +39,23 @@ def stmt? (x : Sexp) : Option Stmt :=
     pure (.imp ns)
   | .list (.atom "from" :: m :: r :: names) => do
     let md ← optAtom m
-    let rel ← r.bool?
+    let lvl ← r.nat?
     let ns ← Sexp.mapM? alias? names
-    pure (.impFrom md rel ns)
+    pure (.impFrom md lvl ns)
   | _ => none
 
-def wrap : Nat → Stmt → Prog
-  | 0, s => .stmt s
-  | n+1, s => .exec (wrap n s)
+def wrap1 : String → Prog → Option Prog
+  | "exec", p => some (.exec p)
+  | "func", p => some (.within .func p)
+  | "cls", p => some (.within .cls p)
+  | "try", p => some (.within .tryExcept p)
+  | "evalexec", p => some (.within .evalExec p)
+  | _, _ => none
+
+def wrap : List Sexp → Stmt → Option Prog
+  | [], s => some (.stmt s)
+  | .atom w :: rest, s => (wrap rest s).bind (wrap1 w)
+  | _, _ => none
 
 def showVal : Val → List Sexp
   | .mod m => [.atom "m", .atom m]
@@ -57,6 +67,7 @@ def showErr : Option Err → String
   | some .notFound => "notFound"
   | some .stubsAs => "stubsAs"
   | some .relNoParent => "relNoParent"
+  | some .relAbove => "relAbove"
   | some .relNotFound => "relNotFound"
   | some .attrMissing => "attrMissing"
 
@@ -77,18 +88,19 @@ def showResolved : Resolved → String
 
 def handle (x : Sexp) : String :=
   match x with
-  | .list [.atom "imp", a, rp, .list (.atom "files" :: fs), .list (.atom "host" :: hs), d, st] =>
+  | .list [.atom "imp", a, rp, .atom cn, .list (.atom "files" :: fs), .list (.atom "host" :: hs),
+           .list (.atom "w" :: ws), st] =>
     match (do
       let allow ← a.bool?
       let rel ← optAtom rp
       let files ← Sexp.mapM? modEntry? fs
       let host ← Sexp.mapM? modEntry? hs
-      let depth ← d.nat?
       let s ← stmt? st
-      pure (allow, rel, files, host, depth, s)) with
-    | some (allow, rel, files, host, depth, s) =>
-      let env : Env := { allowAll := allow, relPath := rel, files := files, host := assoc host }
-      showRes (run env (wrap depth s) [])
+      let prog ← wrap ws s
+      pure (allow, rel, files, host, prog)) with
+    | some (allow, rel, files, host, prog) =>
+      let env : Env := { allowAll := allow, relPath := rel, ctxName := cn, files := files, host := assoc host }
+      showRes (run env prog [])
     | none => "err parse"
   | .list [.atom "name", .atom n, u, h, f] =>
     match u.bool?, h.bool?, f.bool? with
